@@ -419,6 +419,17 @@ def exec_loop(ctx, st, env, cond):
         if items is not None and len(items) <= ctx.unroll and \
                 not any(isinstance(x, (ast.Break, ast.Continue)) for b in st.body for x in ast.walk(b)):
             return exec_unrolled(ctx, st, items, env, cond)
+    if ctx.unroll and isinstance(st, ast.While) and not st.orelse and getattr(st, "_pmv_unroll", True) \
+            and not any(isinstance(x, (ast.Break, ast.Continue)) for b in st.body for x in ast.walk(b)):
+        # bounded unrolling: while c: B  ==  if c: B; if c: B; ... ; beyond the bound the path raises
+        inner = [ast.Raise(exc=ast.Call(func=ast.Name(id="RuntimeError", ctx=ast.Load()), args=[ast.Constant(value="$unroll-bound")], keywords=[]),
+                           cause=None)]
+        for _ in range(ctx.unroll):
+            inner = [ast.If(test=st.test, body=list(st.body) + inner, orelse=[])]
+        node = inner[0]
+        ast.copy_location(node, st)
+        ast.fix_missing_locations(node)
+        return exec_stmt(ctx, node, env, cond)
     ctx.loop_counter += 1
     lid = ctx.loop_counter
     body_assigned = assigned_names(st.body)
@@ -722,6 +733,10 @@ def global_value(ctx, modname, name, gnode):
     if isinstance(gnode, ast.Call) and isinstance(gnode.func, ast.Name) and gnode.func.id in ("Epoch", "Angle"):
         sub = Ctx(ctx.repo, modname)
         return ev(sub, gnode, {})
+    if getattr(ctx, "unroll", 0) and isinstance(gnode, ast.Dict) and len(gnode.keys) <= 64 \
+            and all(isinstance(k, ast.Constant) for k in gnode.keys):
+        sub = Ctx(ctx.repo, modname)
+        return ev(sub, gnode, {})             # small literal lookup table (unroll mode only)
     return ("sym", "%s.%s" % (modname, name))
 
 
@@ -861,6 +876,8 @@ def ev_call(ctx, node, env):
             return T.call("int", numval(args[0]))
         if name == "round":
             return T.call("round", *[numval(a) for a in args])
+        if name == "sorted" and len(args) == 1 and not kws and args[0][0] in ("tuple", "list") and all(x[0] == "num" for x in args[0][1:]):
+            return ("list",) + tuple(sorted(args[0][1:], key=lambda x: x[1]))
         if name == "len" and len(args) == 1 and args[0][0] in ("tuple", "list"):
             return T.num(len(args[0]) - 1)
         if name in BUILTINS or name in MATH_FUNCS:
@@ -880,6 +897,8 @@ def ev_call(ctx, node, env):
                     return T.call("red", *args)
                 return repo_call(ctx, tgt + "." + meth, args, kws, star_kw)
         recv = ev(ctx, f.value, env)
+        if recv[0] == "dict" and meth in ("keys", "values") and not args:
+            return ("list",) + tuple((k if meth == "keys" else v) for k, v in recv[1])
         if recv[0] == "dict" and meth == "get" and args and args[0][0] == "str":
             for k, v in recv[1]:           # literal_dict.get("key"[, default])
                 if k == args[0]:
